@@ -923,6 +923,48 @@ section Round4Labeled
 open Mahotas.C10Labeled
 -- (theorems of this package go between this line and the `end`)
 
+/-- **C10, `_labeled.cpp: find` on ANY array.** If the parent pointers from cell `i` reach a root after `d` steps inside the array
+(`C03.RootN par i r d`: the acyclicity/closedness fact) and `d < fuel`, the recursion of `find(data, i)` ends and every
+`data[·]` it reads or writes (path compression) is a cell of the array. -/
+theorem C10_find_in_bounds (fuel : Nat) (par : Array Int) (i r d : Nat) (h : Mahotas.C03.RootN par i r d) (hd : d < fuel) :
+    (findAcc fuel par (i : Int)).2 = true ∧ inRange par.size (findAcc fuel par (i : Int)).1 = true := by
+  obtain ⟨h1, h2⟩ := findAcc_ok fuel par i r d h hd
+  exact ⟨h1, (inRange_iff _ _).mpr h2⟩
+
+/-- non-vacuity: a chain 3 → 0 → 1 → 2 (root): four reads, three writes; a two-cycle never reaches a root (the recursion would
+not end); a parent `-1` (a background mark used as an index) is dereferenced outside the array -/
+example : findAcc 5 #[1, 2, 2, 0] 3 = ([3, 0, 1, 2, 1, 0, 3], true) ∧ (findAcc 9 #[1, 0] 0).2 = false ∧
+    inRange 2 (findAcc 9 #[1, -1] 0).1 = false := by decide
+
+/-- **C10, `_labeled.cpp: label` — the union–find array accesses (an invariant proof).** For EVERY image (any rank, any content,
+`data.length` cells), every structuring element (any list of neighbour offsets `offs`, centre included or not) and both border
+treatments of the filter iterator: during the scan loop (`join(data, i, arr_val)` for every retrieved neighbour value
+`arr_val != -1`) and the compression loop (`compress(data, i)`), EVERY index dereferenced by `find` / `join` — each
+`data[i]`, each `data[data[i]]` up the chain, each path-compression store `data[i] = j`, each root update `data[find i] = find j`
+— is inside the `N` cells of the array, and no `find` recursion is deeper than `N + 1` calls (so the C++ recursion returns).
+The reason is the invariant C03 proves (`C03.Inv`): at every moment each foreground cell holds the index of a foreground cell
+from which the parent pointers reach a root without leaving the array (the neighbour VALUE `arr_val` handed to `join` is such a
+parent index, never a raw label), each background cell holds `-1` and is never used as an index. The array the trace carries is
+exactly `C03.parents` (the state C03's partition theorems are about), and at the end every cell holds `-1` or an index `< N`. -/
+theorem C10_label_union_find_in_bounds (m : Mahotas.Mode) (shape : List Nat) (data : List Int) (offs : List (List Int)) :
+    inRange data.length (labelUF m shape data offs (data.length + 1)).2.1 = true ∧
+    (labelUF m shape data offs (data.length + 1)).2.2 = true ∧
+    (labelUF m shape data offs (data.length + 1)).1 = Mahotas.C03.parents m shape data offs ∧
+    ∀ i : Nat, (Mahotas.C03.parents m shape data offs).getD i (-1) = -1 ∨
+      (0 ≤ (Mahotas.C03.parents m shape data offs).getD i (-1) ∧
+        (Mahotas.C03.parents m shape data offs).getD i (-1) < (data.length : Int)) := by
+  obtain ⟨⟨E, hE⟩, hr, ht⟩ := labelUF_good m shape data offs
+  have hp := labelUF_parents m shape data offs
+  refine ⟨(inRange_iff _ _).mpr hr, ht, hp, fun i => ?_⟩
+  rw [hp] at hE
+  exact inv_entries hE i
+
+/-- non-vacuity: a 3×3 image with three components, cross neighbourhood (constant border): 38 dereferences, all inside the
+9 cells; the parents afterwards -/
+example : (labelUF Mahotas.Mode.constant [3, 3] [1, 1, 0, 0, 1, 0, 1, 0, 1] [[-1, 0], [0, -1], [0, 0], [0, 1], [1, 0]] 10).2.1.length = 38 ∧
+    (labelUF Mahotas.Mode.constant [3, 3] [1, 1, 0, 0, 1, 0, 1, 0, 1] [[-1, 0], [0, -1], [0, 0], [0, 1], [1, 0]] 10).1 =
+      #[4, 4, -1, -1, 4, -1, 6, -1, 8] := by decide +kernel
+
 end Round4Labeled
 -- ---------------------------------------------------------------------------------------------------------
 
